@@ -13,7 +13,8 @@ import time
 from typing import Any, Callable
 
 VERIF = os.path.dirname(os.path.dirname(os.path.abspath(__file__)))
-LEAN = os.path.join(VERIF, "lean")
+# VERIF_LEAN_DIR: a private copy of the Lake project (development aid: lets a run against a scratch repo proceed while another run uses /verif/lean)
+LEAN = os.environ.get("VERIF_LEAN_DIR") or os.path.join(VERIF, "lean")
 EVID = os.path.join(VERIF, "evidence")
 REPLAYS = os.path.join(VERIF, "replays")
 ALLOWED_AXIOMS = {"propext", "Classical.choice", "Quot.sound"}
